@@ -336,6 +336,10 @@ class Parser:
                 self.expr()
             self.expect("]")
             return ("vec", t)
+        if self.peek().s == "dyn" and self.peek(1).k == "id" and self.peek(2).s not in ("<", "+", "::"):
+            # `&dyn Trait`: an opaque named type (its methods can only be reached as declared externals)
+            self.next()
+            return ("named", self.ident(), [])
         if self.peek().s in ("impl", "dyn", "fn", "*"):
             self.err("unsupported type")
         segs = [self.ident()]
@@ -619,6 +623,16 @@ class Parser:
             return ("tuple", es)
         if x.s == "{" and x.k == "p":
             return self.block()
+        if x.s == "[" and x.k == "p":
+            # array literal `[e, e, ..]` (no repeat form)
+            self.next()
+            es = []
+            while not self.accept("]"):
+                es.append(self.expr())
+                if self.peek().s == ";": self.err("array repeat expression is outside the subset")
+                if not self.accept(","):
+                    self.expect("]"); break
+            return ("array", es)
         if x.s == "|" or x.s == "||":
             self.next()
             params = []
